@@ -105,6 +105,8 @@ type PgWorldConfig struct {
 	// MySQL: the deployment is AcraServer in MySQL mode in front of the simulated MySQL server.
 	MySQL          bool
 	MyDeprecateEOF bool
+	// KeystoreV2: the key store is keystore v2 (key rings on the simulated back end) instead of v1
+	KeystoreV2 bool
 	// StrictParser: Acra's SQL parser in strict mode (a statement it cannot parse is an error, not a pass-through)
 	StrictParser bool
 }
@@ -158,11 +160,11 @@ func NewPgWorld(w *kernel.World, rng *kernel.RNG, cfg PgWorldConfig) (*PgWorld, 
 		sqlparser.SetDefaultDialect(myDialect.NewMySQLDialect())
 		pw.DB.MySQL, pw.DB.MyDeprecateEOF = true, cfg.MyDeprecateEOF
 	}
-	pw.Disk = ksw.NewDisk(1, rng)
+	pw.Disk = ksw.NewDisk(map[bool]int{false: 1, true: 2}[cfg.KeystoreV2], rng)
 	ksPlan := &kernel.Plan{}
 	if cfg.KeyFaultNth > 0 {
 		// armed by BeginOp(keyFaultOp) once the world is set up
-		ksPlan.Faults = []kernel.Fault{{OpID: keyFaultOp, Site: "fs.", Nth: cfg.KeyFaultNth, Kind: kernel.FErr, Arg: 5}}
+		ksPlan.Faults = []kernel.Fault{{OpID: keyFaultOp, Nth: cfg.KeyFaultNth, Kind: kernel.FErr, Arg: 5}}
 	}
 	scratch := kernel.NewWorld(ksPlan, false)
 	scratch.MaxSteps = 1 << 60
